@@ -69,7 +69,7 @@ func init() {
 			{ID: "C05.R1", Doc: "guard domains equal the documented ones: Insert [0,n]; Replace/Get/Delete [0,n-1]; Pop = Delete(n-1); TypeOf defined exactly on [0,n-1]; SubList per its end<=0 rule", Run: c05Domains},
 			{ID: "C05.R2", Doc: "SAFE-INDEX: every list-spine index/slice in the package lies within the current length on every input that reaches it", Run: c05SafeIndex},
 			{ID: "C05.R3", Doc: "no path ending in a panic of Insert, Replace, Get, Delete, Pop, SubList, Sort writes a list before it", Run: c05WriteBeforePanic},
-			{ID: "C05.R4", Doc: "OWN: no two containers ever share a backing array (package-wide)", Run: func(c *Ctx) { c.R.Floor("C05.R4", ownRule(c, "C05.R4"), 10) }},
+			{ID: "C05.R4", Doc: "OWN: no two containers ever share a backing array (package-wide)", Run: func(c *Ctx) { c.R.Floor("C05.R4", ownRule(c, "C05.R4"), 8) }},
 			{ID: "C05.R6", Doc: "reference semantics: Get returns spine[index].getVal(); IndexOf compares getVal() with ==", Run: c05Reference},
 			{ID: "C05.R8", Doc: "Reverse moves element i to n-1-i in place (= C17.R2)", Run: func(c *Ctx) { reverseRule(c, "C05.R8") }},
 			{ID: "C05.R7", Doc: "PURE: the observers (and SubList, Concat) write nothing pre-existing", Run: func(c *Ctx) {
